@@ -677,6 +677,58 @@ def oracle_audit(rng, ctx=None, thorough=False):
     return fails
 
 
+def oracle_sequence(rng, ctx=None, n=10):
+    """Sequence dimension: `_merge_data` is created once per class by a factory (and compiled once per record
+    type by numba): merges of different dimensions and classes are interleaved in a random order, each pair is
+    merged twice (out of place: the two results must be identical, nothing may remember an earlier call), and the
+    radius / position of an operand is changed through the public setters between two merges."""
+    fails = []
+    hist = []
+    keep = {}
+    for i in range(n):
+        cls_name = rng.choice(["SphericalDroplet", "DiffuseDroplet"])
+        d = rng.choice([1, 2, 3])
+        hist.append(f"{cls_name} dim {d}")
+        if ctx is not None:
+            ctx.count("sequence_class_and_dimension", f"{cls_name} dim {d}")
+            ctx.count("sequence_transition", "first" if i == 0 else f"{hist[-2]} -> {hist[-1]}")
+        A, B = _pair(rng, d)
+        A, B = (A[0] or 1.0, A[1], A[2]), (B[0] or 2.0, B[1], B[2])
+        f = check_pair(cls_name, d, A, B, use_numba=True)
+        for x in f:
+            x["sequence_of_earlier_merges"] = list(hist)
+        fails += f
+        x, y = _make(cls_name, d, *A), _make(cls_name, d, *B)
+        m1, m2 = _rec(x.merge(y)), _rec(x.merge(y))
+        if not _same_rec(m1, m2, 0.0, 0.0):
+            fails.append({"what": "two identical out-of-place merges give different results", "class": cls_name, "dim": d,
+                          "r1": A[0], "p1": A[1], "w1": A[2], "r2": B[0], "p2": B[1], "w2": B[2],
+                          "sequence_of_earlier_merges": list(hist)})
+        # change the first operand through the setters, merge again: the result must follow the new values
+        x.radius = A[0] * 1.5
+        x.position = np.array([v + 0.75 for v in A[1]])
+        A2 = (A[0] * 1.5, [v + 0.75 for v in A[1]], A[2])
+        got, want = _rec(x.merge(y)), _rec(_make(cls_name, d, *A2).merge(_make(cls_name, d, *B)))
+        V1, V2 = vol(A2[0], d), vol(B[0], d)
+        if not _same_rec(got, want, 0.0, 0.0) or not _close(vol(got[0], d), V1 + V2, REL):
+            fails.append({"what": "merge after changing the first operand through its setters does not use the new values",
+                          "class": cls_name, "dim": d, "r1": A2[0], "p1": A2[1], "w1": A2[2], "r2": B[0], "p2": B[1], "w2": B[2],
+                          "got": got, "expected": want, "sequence_of_earlier_merges": list(hist)})
+        # the same pair again after merges of other dimensions / classes in between
+        key = (cls_name, d)
+        if key in keep:
+            A0, B0, m0 = keep[key]
+            again = _rec(_make(cls_name, d, *A0).merge(_make(cls_name, d, *B0)))
+            if not _same_rec(again, m0, 0.0, 0.0):
+                fails.append({"what": "the same merge gives a different result after merges of other dimensions / classes",
+                              "class": cls_name, "dim": d, "r1": A0[0], "p1": A0[1], "w1": A0[2], "r2": B0[0], "p2": B0[1],
+                              "w2": B0[2], "first": m0, "later": again, "sequence_of_earlier_merges": list(hist)})
+        keep[key] = (A, B, m1)
+        if ctx is not None:
+            ctx.case(["sequence", i, cls_name, d, A, B])
+    return fails
+
+
 def _sample_goals_retry(ctx, name, req, goals, unfold, tries=3):
     """vlib.sample_goals, repeated when coqc died without any output (the signature of the kernel's OOM killer on
     the shared machine: a real Coq error always prints a message).  Nothing is retried when Coq reported anything."""
@@ -772,6 +824,7 @@ def check(ctx: vlib.Ctx) -> int:
     fails = oracle(rng, ctx.scale(12, 120) * (3 if big else 1), ctx.scale(4, 40) * (3 if big else 1), True, ctx)
     fails += oracle_provenance(rng, ctx.scale(1, 6), ctx)
     fails += oracle_audit(rng, ctx, thorough=not ctx.quick)
+    fails += oracle_sequence(rng, ctx, n=ctx.scale(10, 60))
     try:
         sus = probe_suspected()
     except Exception as e:  # reported, never judged
